@@ -18,7 +18,8 @@ RULE = ('configuration = swarm size 1..6, argument dictionary (random tuples per
 ASSUMPTIONS = ['members are duck-typed SyncCrazyflie stand-ins (open_link / close_link / cf); a subset of cases uses real '
                'SyncCrazyflie objects over the sim:// driver']
 REQUIRED = ['mon.parallel_safe', 'mon.parallel', 'mon.sequential', 'mon.open_failures', 'mon.double_open', 'mon.real_members',
-            'mon.actions_invoked', 'mon.argument_dictionaries_in_another_order']
+            'mon.actions_invoked', 'mon.argument_dictionaries_in_another_order',
+            'mon.real_swarm_reopened_with_a_link_dropping_in_the_handshake']
 DESC_TIMEOUT = 900
 
 
@@ -29,7 +30,7 @@ def cases(tier, seed):
         out.append({'n': n, 'part': 'actions', 'S': S, 'seed': seed * 131 + n})
         if n <= 4:
             out.append({'n': n, 'part': 'open', 'S': S, 'seed': seed * 131 + n})
-    for i in range(3 if tier == 'quick' else 20):
+    for i in range(10 if tier == 'quick' else 40):
         out.append({'n': 3, 'part': 'real', 'S': 1, 'seed': seed * 1009 + i})
     return out
 
@@ -311,10 +312,37 @@ def run_real(desc, ctx):
             ob['exc'] = e
         s.sleep(1.0)
         ob['open_after'] = [u for u, scf in sw._cfs.items() if scf.is_link_open()]
+        if reopen and ob['exc'] is None:
+            # the same swarm is opened again; this time the link of one member drops during the handshake
+            victim = uris[rnd.randrange(3)]
+            spec = simlink.SIMS[victim]
+            if rnd.random() < 0.5:
+                spec.fail_after_rx = rnd.randint(1, 5)
+            else:
+                spec.fail_after_tx = rnd.randint(2, 5)
+            spec.fail_reporter = rnd.choice(('driver', 'sender'))
+            ob['victim'] = victim
+            s.horizon = s.now + 300.0
+            try:
+                sw.open_links()
+                ob['reopen_exc'] = None
+            except Exception as e:  # noqa
+                ob['reopen_exc'] = repr(e)[:200]
+            s.sleep(1.0)
+            ob['open_after_reopen'] = [u for u, scf in sw._cfs.items() if scf.is_link_open()]
+            ob['fault_fired'] = spec.faults_fired
+            if ob['reopen_exc'] is None:
+                sw.close_links()
+    reopen = bad is None and desc['seed'] % 2 == 0
     _, abort, sch = harness.sched_case(fn, seed=desc['seed'], policy='random', horizon=2000.0)
     ctx.evals()
     ctx.count('mon.real_members')
     info = {'uris': uris, 'unreachable': bad}
+    if reopen and abort is None and ob.get('fault_fired'):
+        ctx.count('mon.real_swarm_reopened_with_a_link_dropping_in_the_handshake')
+        if ob.get('reopen_exc') is None or ob.get('open_after_reopen'):
+            ctx.violate('swarm:real:reopen-with-failing-member-not-raised-or-links-left-open',
+                        dict(info, victim=ob.get('victim'), raised=ob.get('reopen_exc'), open=ob.get('open_after_reopen')))
     if abort is not None or sch.deaths:
         ctx.violate('swarm:real:hang-or-thread-death', dict(info, abort=str(abort), threads=getattr(abort, 'table', None),
                                                           deaths=[d[1] for d in sch.deaths][:2]))
